@@ -300,7 +300,13 @@ def check(ck, prog):
         ck.ob("C08.7", "results-are-zero-at-the-end-or-the-byte-difference", not bad_res and n_res >= 2, fn=cb["path"], site=c.site(bad_res[0][1]) if bad_res else None,
               detail=("; ".join(f"{k}: `{show(e)}`" for k, _, e in bad_res) or f"result assignments found: {n_res}") + " - memcmp's sign is that of the first differing BYTE pair (a word compare orders by the last byte on little-endian)")
         # index
-        idx = [l for l, nme in c.prov.names.items() if nme == "i"]
+        # the index variable: the merged local added to s1 for the byte loads
+        idx = []
+        for bbx, tx in c.cfg.calls(lambda t: (t.get("callee") or "").endswith(PTR_ADD)):
+            ax = c.args(bbx)
+            a1 = strip_casts(ax[1]) if len(ax) > 1 else None
+            if canon(ax[0]) == "p1" and isinstance(a1, tuple) and a1[0] == "var" and a1[1] not in idx:
+                idx.append(a1[1])
         if ck.anchor("C08.7", "index variable i", idx):
             il = idx[0]
             defs = []
@@ -316,7 +322,7 @@ def check(ck, prog):
             bad = []
             for b, e in stepd:
                 e2 = strip_casts(e)
-                k = fold(e2[3]) if isinstance(e2, tuple) and e2[0] == "bin" and e2[1] == "Add" and canon(e2[2]).endswith("var:i") else None
+                k = fold(e2[3]) if isinstance(e2, tuple) and e2[0] == "bin" and e2[1] == "Add" and isinstance(strip_casts(e2[2]), tuple) and strip_casts(e2[2])[0] == "var" and strip_casts(e2[2])[1] == il else None
                 if k is None:
                     bad.append((b, f"i is set to `{show(e)}`"))
                     continue
@@ -328,7 +334,7 @@ def check(ck, prog):
                         i1, i2 = byte_at(f[2], 1), byte_at(f[3], 2)
                         if i1 is None or i2 is None:
                             i1, i2 = byte_at(f[3], 1), byte_at(f[2], 2)
-                        if i1 is not None and i2 is not None and canon(i1) == canon(i2) and canon(i1).endswith("var:i") and k == 1:
+                        if i1 is not None and i2 is not None and canon(i1) == canon(i2) and isinstance(strip_casts(i1), tuple) and strip_casts(i1)[0] == "var" and strip_casts(i1)[1] == il and k == 1:
                             eq = True
                 if not eq:
                     bad.append((b, f"i advances by {k} without the {k} byte(s) at s1+i and s2+i having compared equal"))
